@@ -278,6 +278,11 @@ pub fn items() -> Vec<Item> {
             v.push(Item::Query(q.as_bytes().to_vec()));
         }
     }
+    // texts that end inside a bracketed SOA, and texts with vertical whitespace where only blanks are allowed:
+    // whatever the text parser keeps across calls (a nesting depth, a mode) shows in the call after
+    for t in ["a. 1 IN SOA ns.a. admin.a. ( 1 2 3", "a. 1 IN SOA ns.a. admin.a. (", "x. 1 IN A 1.2.3.4\n", "x. 1\nIN A 1.2.3.4", "x. 1 IN\x0bA 1.2.3.4", "x. 1 IN TXT \"a\"\x0c", "a. 1 IN SOA ns.a. admin.a. ( 1 2 3 4 5 ) )", "x. 1 IN A 1.2.3.4\r\n"] {
+        v.push(Item::FromString(t.to_string()));
+    }
     for t in ["x. 60 IN A 1.2.3.4", "a.b. 1 IN MX 10 mail.a.b.", "a. 1 IN SOA ns.a. admin.a. ( 1 2 3 4 5 )", "x. 0 IN TXT \"hello\\032world\"", "x. 1 IN DS 1 2 3 abcd", "x. 1 IN AAAA 2001:db8::1", "x. 1 IN NS", "", "x. 4294967296 IN A 1.2.3.4", "b.a 5 in cname c.b.a"] {
         v.push(Item::FromString(t.to_string()));
     }
@@ -314,6 +319,20 @@ pub fn conc_items() -> Vec<Item> {
         }),
         Item::FromString("a. 1 IN SOA ns.a. admin.a. ( 1 2 3 4 5 )".to_string()),
         Item::FromString("B.a. 2 IN MX 5 Mail.b.a.".to_string()),
+        // packets whose OPT record carries options, parsed on both threads
+        Item::Parse({
+            let mut mo = base_msg(&ba, T_A, true);
+            mo.ar.push(opt_rec(1232, 0, 0, 0x8000, &[(10, vec![1, 2, 3]), (12, vec![]), (15, vec![0, 9])]));
+            encode(&mo, Strategy::Max)
+        }),
+        Item::Parse({
+            let mut mo = base_msg(&a, T_A, false);
+            mo.ar.push(opt_rec(4096, 0, 0, 0, &[(8, vec![0, 1, 24, 0, 10, 0, 0])]));
+            encode(&mo, Strategy::Plain)
+        }),
+        // a packet that drives the compressor to its pointer-chain limit (names nested 19 deep)
+        Item::Compress(crate::c06::l5_packets().into_iter().filter(|(f, _)| *f == "nest").nth(36).map(|(_, p)| p).unwrap()),
+        Item::Compress(encode(&base_msg(&nm("b.a"), T_A, false), Strategy::Plain)),
         Item::NameFromStr(b"www".to_vec(), Some(nm("b.a"))),
         Item::NameFromStr(b"Mail.b.a.".to_vec(), None),
         Item::Query(b"b.a".to_vec()),
@@ -479,7 +498,9 @@ fn run(ctx: &mut Ctx, rep: &mut Report) {
             if !ctx.mine(gi) || ctx.timed_out() {
                 continue;
             }
-            explore_conc(ctx, rep, &[a, b], &cits, &cbase, bound);
+            // items with hundreds of yield points (the deeply nested compress) are explored with one preemption
+            let heavy = |i: usize| matches!(&cits[i], Item::Compress(p) if p.len() > 600);
+            explore_conc(ctx, rep, &[a, b], &cits, &cbase, if heavy(a) || heavy(b) { 1 } else { bound });
         }
     }
     if ctx.tier == Tier::Thorough {
